@@ -119,13 +119,13 @@ def variantOf (env : TEnv) (firstLevel : Bool) (parent : String) (firstExt : Opt
         (if isGroupName c.name then some "SEQUENCE" else some c.name) else none }
 
 def fieldsOf (mk : Nat → SrcComp → FieldF) (members : List SrcComp) : List FieldF :=
-  members.zipIdx.map fun (c, i) => mk i c
+  members.zipIdx.map fun ci => mk ci.2 ci.1
 
 /-- enum variants (`format_enum_members`): field-less, extension flag by index -/
 def enumVariants (names : List String) (firstExt : Option Nat) : List FieldF :=
-  names.zipIdx.map fun (n, i) =>
-    { name := enumIdS n, ty := "", tag := none, ext := extAnnotation i firstExt false, hasDefault := false,
-      identifier := identAnn (enumIdS n) n }
+  names.zipIdx.map fun ni =>
+    { name := enumIdS ni.1, ty := "", tag := none, ext := extAnnotation ni.2 firstExt false, hasDefault := false,
+      identifier := identAnn (enumIdS ni.1) ni.1 }
 
 structure Ctx where
   env : TEnv
